@@ -159,6 +159,10 @@ func ruleTokenWrite(c *chk.Ctx, owner string) {
 				if prm, ok := s.resp.(*ssa.Parameter); ok {
 					respOK, why = paramTiedToKey(c, f, prm, p.key)
 				}
+				// comma-ok lookup: the written Response is the value half of that very lookup
+				if e, ok := ir.NormCell(s.resp).(*ssa.Extract); ok && e.Index == 0 && isSameInstr(e.Tuple, p.lookup) {
+					respOK = true
+				}
 			}
 			if !respOK {
 				if why == "" {
@@ -794,4 +798,9 @@ func ruleWatcherContextPairing(c *chk.Ctx) {
 			c.Check(good, "TOKEN.register", f, "watcher watches the entry's own context", watcher.Pos(), "Response i and context i come from the two results of one constructor call, appended in the same block, and are read at the same index when the watcher starts", "the context given to a pending entry's watcher is not provably the one created with that entry ("+why+"): a request could be completed by another request's context ending")
 		})
 	}
+}
+
+func isSameInstr(v ssa.Value, ins ssa.Instruction) bool {
+	vi, ok := v.(ssa.Instruction)
+	return ok && vi == ins
 }
